@@ -16,5 +16,9 @@ if [ "$new" != "$old" ] && [ -d "$here/target/release" ]; then
   cargo clean --release -p quandary -p simcheck >/dev/null 2>&1 || true
 fi
 out=$(cargo build --release 2>&1) || { echo "$out" | grep -E "^error" -A12 | head -60; exit 1; }
+if [ "${VERIF_PROFILE:-}" = "shipped" ]; then
+  # second build with the shipped arithmetic: overflow checks and debug assertions off
+  out=$(cargo build --profile shipped 2>&1) || { echo "$out" | grep -E "^error" -A12 | head -60; exit 1; }
+fi
 mkdir -p "$here/target"
 echo "$new" > "$stamp"
